@@ -625,7 +625,7 @@ Definition info_eqb (a b : minfo) : bool :=
 
 (* the round-trip property judged on a concrete (real) encoding [j] of [mi] *)
 Definition roundtrip_holdsb (mi : minfo) (j : json) : bool :=
-  match dec_module_info j with Some mi' => info_eqb mi mi' | None => false end.
+  match dec_module_info j with Some mi' => wf_infob mi' && info_eqb mi mi' | None => false end.
 
 (* ================================================================ moduleGraph1 -> moduleGraph2 (analysis.rs:292-364) *)
 
